@@ -3,6 +3,7 @@
 From Coq Require Import ZArith QArith List Bool Lia.
 From RV Require Import Base.Wire Base.Text Lang.PyAst Lang.Infer Lang.InferGuard Lang.InferComp Lang.EmitScope Lang.CompScope
   Proofs.InferP Proofs.CompP Proofs.EmitScopeP.
+From RV Require Lang.Decl.
 Import ListNotations.
 Open Scope Z_scope.
 
@@ -161,3 +162,18 @@ Lemma nested_demo :
   scan [[]] (prog_toks [] nested_prog) = Some [[CUser n_w; CUser n_xs; CUser n_v]] /\
   scan [[CUser n_v]] (comp_toks (RComp n_v (EInt 3) (RComp n_v (EInt 2) (RPlain (EName n_v))))) = Some [[CUser n_v]].
 Proof. repeat split; vm_compute; reflexivity. Qed.
+
+(* ------------------------------------------------------------------ a function local of the name of a global *)
+Lemma fn_local_shadows_global :
+  exists ps d,
+    Decl.run_items None shadow_items = Some ps /\ Decl.selected_functions (Decl.p_fe ps) = [(n_twice, d)] /\
+    Decl.p_globals ps = [(n_label, CString)] /\ Decl.fd_locals d = [] /\ Decl.fd_params d = [] /\ Decl.fd_ret d = CInt /\
+    infer_s [] [] None [] (EInt 4) = Some (TInt, []) /\
+    fn_assign_consistent (Decl.p_globals ps) d n_label TInt = false.
+Proof. eexists. eexists. split; [vm_compute; reflexivity|]. repeat split; vm_compute; reflexivity. Qed.
+
+Lemma fn_assigns_global_same_type :
+  exists ps d,
+    Decl.run_items None same_type_items = Some ps /\ Decl.selected_functions (Decl.p_fe ps) = [(n_twice, d)] /\
+    fn_assign_consistent (Decl.p_globals ps) d n_label TInt = true.
+Proof. eexists. eexists. split; [vm_compute; reflexivity|]. split; vm_compute; reflexivity. Qed.
